@@ -856,3 +856,38 @@ def expand_call(ctx, call: ast.Call, fi: FuncInfo):
             if d is not None:
                 mapping[p] = d
     return G.substitute(e, mapping, recursive=False)
+
+
+def text_parts(node):
+    """The parts of a text built by an f-string and / or `+`: [('lit', str) | ('expr', source text)], adjacent literals merged.
+    `f'**{a}{b}'`, `'**' + a + b` and `'**' + f'{a}{b}'` have the same parts."""
+    out = []
+
+    def lit(t):
+        if not t:
+            return
+        if out and out[-1][0] == 'lit':
+            out[-1] = ('lit', out[-1][1] + t)
+        else:
+            out.append(('lit', t))
+
+    def rec(n):
+        if isinstance(n, ast.JoinedStr):
+            for v in n.values:
+                if isinstance(v, ast.Constant):
+                    lit(str(v.value))
+                elif isinstance(v, ast.FormattedValue) and v.conversion == -1 and v.format_spec is None:
+                    rec(v.value)
+                else:
+                    out.append(('expr', src(v)))
+        elif isinstance(n, ast.BinOp) and isinstance(n.op, ast.Add):
+            rec(n.left)
+            rec(n.right)
+        elif isinstance(n, ast.Constant) and isinstance(n.value, str):
+            lit(n.value)
+        elif isinstance(n, ast.Call) and isinstance(n.func, ast.Name) and n.func.id == 'str' and len(n.args) == 1 and not n.keywords:
+            rec(n.args[0])
+        else:
+            out.append(('expr', src(n)))
+    rec(node)
+    return out
